@@ -11,6 +11,7 @@ import Iodata.Lemmas.FmtR.Crd
 import Iodata.Lemmas.FmtR.ExtXyz
 import Iodata.Gen.LayoutsR
 import Iodata.Gen.Layouts
+import Iodata.Gen.Conventions
 
 namespace Iodata.Props.C03Readers
 open Iodata.Chars Iodata.Decimal Iodata.Fmt Iodata.FmtR Iodata.Gen.LayoutsR
@@ -227,5 +228,29 @@ example :
 example : ∀ p ∈ [("Lattice".toList, "7.6 0.0 0.0 0.0 7.6 0.0 0.0 0.0 7.6".toList, ExtXyz.Quote.dq),
     ("Properties".toList, "species:S:1:pos:R:3".toList, .bare), ("pbc".toList, "T F T".toList, .dq)], ExtXyz.okPair p := by
   decide +kernel
+
+/-! ### WFN / WFX: the primitive type codes of `TYPE ASSIGNMENTS` / `<Primitive Types>` -/
+
+/-- The published numbering of Cartesian primitive types in AIMPAC WFN / AIMAll WFX files (AIMAll's format
+description, repeated in the Multiwfn manual): code 1 = S, 2-4 = P, 5-10 = D, 11-20 = F, 21-35 = G, 36-56 = H,
+each written as the monomial it multiplies. -/
+def wfnTypeCodes : List String :=
+  ["1", "x", "y", "z", "xx", "yy", "zz", "xy", "xz", "yz",
+   "xxx", "yyy", "zzz", "xxy", "xxz", "yyz", "xyy", "xzz", "yzz", "xyz",
+   "xxxx", "yyyy", "zzzz", "xxxy", "xxxz", "xyyy", "yyyz", "xzzz", "yzzz", "xxyy", "xxzz", "yyzz", "xxyz", "xyyz", "xyzz",
+   "zzzzz", "yzzzz", "yyzzz", "yyyzz", "yyyyz", "yyyyy", "xzzzz", "xyzzz", "xyyzz", "xyyyz", "xyyyy", "xxzzz", "xxyzz",
+   "xxyyz", "xxyyy", "xxxzz", "xxxyz", "xxxyy", "xxxxz", "xxxxy", "xxxxx"]
+
+/-- the table a module's reader and writer index with the type code minus one (`PRIMITIVE_NAMES`): the Cartesian
+conventions of l = 0..5 concatenated in order of l -/
+def primitiveNames (t : Iodata.Conv.Table) : List String :=
+  (t.filter (fun e => e.1.2 == 'c')).flatMap (fun e => e.2.map String.ofList)
+
+/-- **wfn_type_codes_published.**  The convention tables of `wfn.py` and `wfx.py` (regenerated from the source) list the
+56 primitive types in the published order, so code `k` of a file written by another program is read as the `k`-th
+published monomial (and written back under the same code). -/
+theorem wfn_type_codes_published :
+    primitiveNames Iodata.Gen.Conventions.wfn = wfnTypeCodes ∧
+    primitiveNames Iodata.Gen.Conventions.wfx = wfnTypeCodes := by decide +kernel
 
 end Iodata.Props.C03Readers
